@@ -102,6 +102,8 @@ Proof. induction a; simpl; auto. Qed.
 Section Real.
 Variable pol : policy.
 Variable val : tag -> string.          (* the value the (deterministic) body produces for the iteration tagged t *)
+Variable tst : status.                 (* the status carried by the termination tokens that reach L (COMPLETED, or
+                                          SKIPPED when no instance iterates: not decided by this model) *)
 Variable cont : tag -> bool.
 Variable insts : list tag.
 Variable d : nat.
@@ -112,7 +114,7 @@ Definition conv (a : atok) : larr :=
   match a with
   | AT t => LTok (Tok (render t) (val t))
   | AI t => LIter (render t)
-  | _ => LTerm Completed
+  | _ => LTerm tst
   end.
 (* state of L: the state of LoopOutputStep.run and (ghost) the tokens it has read *)
 Definition RS : Type := (lstate * list atok)%type.
@@ -640,7 +642,7 @@ Theorem loop_network s :
      let k := kof s in
      (forall p, In p insts -> (forall j, j < k p -> cont (itag p j) = true) /\ cont (itag p (k p)) = false) /\
      Permutation (lout (fst (ls s))) (map (fun p => lexpected pol (p, iters p (k p))) insts) /\
-     lfinal (fst (ls s)) = Some (match insts with [] => Skipped | _ => Completed end)).
+     lfinal (fst (ls s)) = Some (get_status (reduce_statuses [Skipped; tst]) (match insts with [] => true | _ => false end))).
 Proof.
   intros R. pose proof (inv3_reach s R) as I3.
   assert (Hne : forall p, In p insts -> p <> []).
@@ -694,8 +696,8 @@ Proof.
           destruct (r_eside s I3 a Ha') as [->|X]; [contradiction|exact X]. }
       rewrite P0. unfold all_larr, insts'. rewrite map_map. rewrite concat_map, map_map.
       apply concat_perm. intros p _. apply conv_X. }
-    destruct (loop_step_thm pol insts' (map conv h) Hok Hnd' Hperm) as (_ & _ & T3 & T4).
-    assert (EL : fst (ls s) = loop_run pol (map conv h ++ [LTerm Completed])).
+    destruct (loop_step_thm_st pol insts' (map conv h) tst Hok Hnd' Hperm) as (_ & _ & T3 & T4).
+    assert (EL : fst (ls s) = loop_run pol (map conv h ++ [LTerm tst])).
     { rewrite (r_h0 s I3), Eh, map_app. reflexivity. }
     rewrite EL. split.
     + rewrite T3. unfold insts'. rewrite map_map. apply Permutation_refl.
@@ -709,7 +711,7 @@ End Real.
 Definition ex_cont1 (t : tag) : bool := match t with [0%N; 0%N] => true | _ => false end.
 Definition ex_val (t : tag) : string := render t.
 Lemma ex_real_run :
-  exists s, rreach OutAll ex_val ex_cont1 [[0%N]] s /\ lgot s = true /\
+  exists s, rreach OutAll ex_val Completed ex_cont1 [[0%N]] s /\ lgot s = true /\
             lout (fst (ls s)) = [ListTok "0" [Tok "0.0" "0.0"]] /\ kof s [0%N] = 1.
 Proof.
   eexists. split.
